@@ -44,8 +44,9 @@ end
 
 /-- every item the model of `coset_tables` yields is a table (the model never panics and never
     runs out of internal fuel), it is complete, and its view is the Spec table of its entries -/
-theorem cosetTables_ok (n : Nat) (rels : List (List Int)) (k fuel : Nat)
-    (hcr : ∀ ρ ∈ rels, ρ = [] ∨ FWP.CR ρ) (hlet : ∀ w ∈ rels, ∀ x ∈ w, x ∈ allGensOf n)
+theorem cosetTables_ok_gen (n : Nat) (rels rels' : List (List Int)) (k fuel : Nat)
+    (hrot : RotClosed rels' (expandedRelatorSet rels)) (hlet' : ∀ w ∈ rels', ∀ x ∈ w, x ∈ allGensOf n)
+    (hlet : ∀ w ∈ rels, ∀ x ∈ w, x ∈ allGensOf n)
     (hf : (BT.dfs (btProblem n (expandedRelatorSet rels) k) (height k) (.ok (Table.new n))).length ≤ fuel) :
     ∀ x ∈ cosetTables n rels k fuel, ∃ t' v, x = .ok t' ∧ t'.view = .ok v ∧
       (viewTab v).size = t'.len ∧
@@ -57,8 +58,8 @@ theorem cosetTables_ok (n : Nat) (rels : List (List Int)) (k fuel : Nat)
   rw [BT.run_eq_dfs _ (height k) (btProblem_decreasing n _ k) fuel hf] at hx
   obtain ⟨s, hs, hext⟩ := List.mem_filterMap.mp hx
   have hreach := (BT.mem_dfs_iff _ (height k) (btProblem_decreasing n _ k) _ s).mp hs
-  obtain ⟨Q, rfl, sq⟩ := reach_ok (rotClosed_expanded hcr) hlet hwR hreach
-    ⟨Table.new n, rfl, sinv_new k n rels, cs_new n⟩
+  obtain ⟨Q, rfl, sq⟩ := reach_ok hrot hlet' hwR hreach
+    ⟨Table.new n, rfl, sinv_new k n rels', cs_new n⟩
   obtain ⟨t', hcmp⟩ := compact_total sq.1.tcq.shape sq.1.clean
   have hx' : x = .ok t' := by
     have hext' : btExtract (.ok Q) = some x := hext
@@ -96,6 +97,14 @@ theorem cosetTables_ok (n : Nat) (rels : List (List Int)) (k fuel : Nat)
   refine ⟨t', _, rfl, hview, by simp [viewTab], ?_⟩
   intro j hj g hg
   exact ⟨E j g, (hE j hj g hg).1, entry_viewTab E (fun j hj g hg => (hE j hj g hg).2) hj hg⟩
+
+theorem cosetTables_ok (n : Nat) (rels : List (List Int)) (k fuel : Nat)
+    (hcr : ∀ ρ ∈ rels, ρ = [] ∨ FWP.CR ρ) (hlet : ∀ w ∈ rels, ∀ x ∈ w, x ∈ allGensOf n)
+    (hf : (BT.dfs (btProblem n (expandedRelatorSet rels) k) (height k) (.ok (Table.new n))).length ≤ fuel) :
+    ∀ x ∈ cosetTables n rels k fuel, ∃ t' v, x = .ok t' ∧ t'.view = .ok v ∧
+      (viewTab v).size = t'.len ∧
+      ∀ j, j < t'.len → ∀ g ∈ allGensOf n, ∃ d, t'.get j g = .ok (some d) ∧ entry (viewTab v) n j g = some d :=
+  cosetTables_ok_gen n rels rels k fuel (rotClosed_expanded hcr) hlet hlet hf
 
 /-- **C12 for the model**: for relators that are empty or cyclically reduced, the views of the
     tables yielded by the model of `coset_tables(n, rels, k)` are a system of representatives
